@@ -17,7 +17,11 @@ from .utils.template_utils import FakerTemplateLibrary
 from .utils.yaml_utils import SnowfakeryDumper, hydrate
 from .row_history import RowHistory
 from .template_funcs import StandardFuncs
-from .data_gen_exceptions import DataGenSyntaxError, DataGenNameError
+from .data_gen_exceptions import (
+    DataGenSyntaxError,
+    DataGenNameError,
+    DataGenValueError,
+)
 import snowfakery  # noQA
 from snowfakery.object_rows import (
     NicknameSlot,
@@ -356,7 +360,10 @@ class Interpreter:
         snowfakery_version = self.options.get(
             "snowfakery.standard_plugins.SnowfakeryVersion.snowfakery_version", 2
         )
-        assert snowfakery_version in (2, 3)
+        if snowfakery_version not in (2, 3):
+            raise DataGenValueError(
+                f"snowfakery_version should be 2 or 3, not `{snowfakery_version}`"
+            )
         self.native_types = snowfakery_version == 3
         self.template_evaluator_factory = JinjaTemplateEvaluatorFactory(
             self.native_types
